@@ -40,6 +40,47 @@ static int64_t op_misuse_handler(void) { return sodium_set_misuse_handler(NULL);
 static int64_t op_init_again(void) { return sodium_init(); }
 static int64_t op_memzero(void) { unsigned char b[64]; memset(b, 1, 64); sodium_memzero(b, 64); return sodium_is_zero(b, 64); }
 
+
+/* ---- second batch: verify/decrypt directions and the remaining API families ---- */
+static int64_t op_aead_dec(void) { unsigned char c[48], k[32], n[12], m[32], o[32]; unsigned long long cl, ml; memset(k, 1, 32); memset(n, 2, 12); memset(m, 3, 32); crypto_aead_chacha20poly1305_ietf_encrypt(c, &cl, m, 32, NULL, 0, NULL, n, k); return crypto_aead_chacha20poly1305_ietf_decrypt(o, &ml, NULL, c, cl, NULL, 0, n, k) * 7 + (int64_t) h64(H0, o, 32); }
+static int64_t op_aead_x(void) { unsigned char c[48], k[32], n[24], m[32], o[32]; unsigned long long cl, ml; memset(k, 1, 32); memset(n, 2, 24); memset(m, 3, 32); crypto_aead_xchacha20poly1305_ietf_encrypt(c, &cl, m, 32, m, 5, NULL, n, k); c[3] ^= 1; return crypto_aead_xchacha20poly1305_ietf_decrypt(o, &ml, NULL, c, cl, m, 5, n, k) + (int64_t) h64(H0, c, 48); }
+static int64_t op_aead_orig(void) { unsigned char c[48], k[32], n[8], m[32]; unsigned long long cl; memset(k, 1, 32); memset(n, 2, 8); memset(m, 3, 32); crypto_aead_chacha20poly1305_encrypt(c, &cl, m, 32, NULL, 0, NULL, n, k); return (int64_t) h64(H0, c, 48); }
+static int64_t op_aegis_dec(void) { unsigned char c[64], k[16], n[16], m[20], o[20]; unsigned long long cl, ml; memset(k, 3, 16); memset(n, 4, 16); memset(m, 5, 20); crypto_aead_aegis128l_encrypt(c, &cl, m, 20, NULL, 0, NULL, n, k); return crypto_aead_aegis128l_decrypt(o, &ml, NULL, c, cl, NULL, 0, n, k) + (int64_t) h64(H0, o, 20); }
+static int64_t op_gcm_dec(void) { unsigned char c[48], k[32], n[12], m[32], o[32]; unsigned long long cl, ml; if (!crypto_aead_aes256gcm_is_available()) return 0; memset(k, 1, 32); memset(n, 2, 12); memset(m, 3, 32); crypto_aead_aes256gcm_encrypt(c, &cl, m, 32, NULL, 0, NULL, n, k); return crypto_aead_aes256gcm_decrypt(o, &ml, NULL, c, cl, NULL, 0, n, k) + (int64_t) h64(H0, o, 32); }
+static int64_t op_secretbox_open(void) { unsigned char c[48], k[32], n[24], m[32], o[32]; memset(k, 1, 32); memset(n, 2, 24); memset(m, 3, 32); crypto_secretbox_easy(c, m, 32, n, k); return crypto_secretbox_open_easy(o, c, 48, n, k) + (int64_t) h64(H0, o, 32); }
+static int64_t op_secretbox_x(void) { unsigned char c[48], k[32], n[24], m[32], o[32]; memset(k, 1, 32); memset(n, 2, 24); memset(m, 3, 32); crypto_secretbox_xchacha20poly1305_easy(c, m, 32, n, k); return crypto_secretbox_xchacha20poly1305_open_easy(o, c, 48, n, k) + (int64_t) h64(H0, c, 48); }
+static int64_t op_box(void) { unsigned char pk[32], sk[32], seed[32], c[48], n[24], m[32], o[32]; memset(seed, 6, 32); memset(n, 2, 24); memset(m, 3, 32); crypto_box_seed_keypair(pk, sk, seed); crypto_box_easy(c, m, 32, n, pk, sk); return crypto_box_open_easy(o, c, 48, n, pk, sk) + (int64_t) h64(H0, c, 48); }
+static int64_t op_box_x(void) { unsigned char pk[32], sk[32], seed[32], c[48], n[24], m[32]; memset(seed, 6, 32); memset(n, 2, 24); memset(m, 3, 32); crypto_box_curve25519xchacha20poly1305_seed_keypair(pk, sk, seed); crypto_box_curve25519xchacha20poly1305_easy(c, m, 32, n, pk, sk); return (int64_t) h64(H0, c, 48); }
+static int64_t op_seal(void) { unsigned char pk[32], sk[32], seed[32], c[80], m[32], o[32]; memset(seed, 6, 32); memset(m, 3, 32); crypto_box_seed_keypair(pk, sk, seed); crypto_box_seal(c, m, 32, pk); return crypto_box_seal_open(o, c, 80, pk, sk) + (int64_t) h64(H0, o, 32); }
+static int64_t op_kx(void) { unsigned char pk[32], sk[32], seed[32], rx[32], tx[32]; memset(seed, 6, 32); crypto_kx_seed_keypair(pk, sk, seed); crypto_kx_client_session_keys(rx, tx, pk, sk, pk); return (int64_t) h64(h64(H0, rx, 32), tx, 32); }
+static int64_t op_sign_open(void) { unsigned char pk[32], sk[64], seed[32], sm[80], o[16]; unsigned long long l; memset(seed, 8, 32); crypto_sign_seed_keypair(pk, sk, seed); crypto_sign(sm, &l, (const unsigned char *) "0123456789abcdef", 16, sk); return crypto_sign_open(o, &l, sm, 80, pk) + (int64_t) h64(H0, sm, 80); }
+static int64_t op_sign_multi(void) { unsigned char pk[32], sk[64], seed[32], sig[64]; crypto_sign_state st; memset(seed, 8, 32); crypto_sign_seed_keypair(pk, sk, seed); crypto_sign_init(&st); crypto_sign_update(&st, seed, 32); crypto_sign_final_create(&st, sig, NULL, sk); crypto_sign_init(&st); crypto_sign_update(&st, seed, 32); return crypto_sign_final_verify(&st, sig, pk) + (int64_t) h64(H0, sig, 64); }
+static int64_t op_sign_convert(void) { unsigned char pk[32], sk[64], seed[32], c[32], d[32]; memset(seed, 8, 32); crypto_sign_seed_keypair(pk, sk, seed); crypto_sign_ed25519_pk_to_curve25519(c, pk); crypto_sign_ed25519_sk_to_curve25519(d, sk); return (int64_t) h64(h64(H0, c, 32), d, 32); }
+static int64_t op_ed_core(void) { unsigned char p[32], q[32], r[32], n[32]; memset(n, 5, 32); crypto_scalarmult_ed25519_base(p, n); n[0] = 9; crypto_scalarmult_ed25519_base_noclamp(q, n); crypto_core_ed25519_add(r, p, q); crypto_core_ed25519_sub(r, r, q); return crypto_core_ed25519_is_valid_point(r) + (int64_t) h64(H0, r, 32); }
+static int64_t op_ed_mult(void) { unsigned char p[32], q[32], n[32]; memset(n, 5, 32); crypto_scalarmult_ed25519_base(p, n); crypto_scalarmult_ed25519(q, n, p); crypto_scalarmult_ed25519_noclamp(p, n, q); return (int64_t) h64(H0, p, 32); }
+static int64_t op_ristretto(void) { unsigned char p[32], q[32], h[64], n[32]; memset(h, 7, 64); memset(n, 5, 32); crypto_core_ristretto255_from_hash(p, h); crypto_scalarmult_ristretto255(q, n, p); crypto_scalarmult_ristretto255_base(p, n); crypto_core_ristretto255_add(q, q, p); return crypto_core_ristretto255_is_valid_point(q) + (int64_t) h64(H0, q, 32); }
+static int64_t op_h2c(void) { unsigned char p[32], q[32]; crypto_core_ed25519_from_string(p, "ctx", (const unsigned char *) "msg", 3, 2); crypto_core_ed25519_from_string_ro(q, "ctx", (const unsigned char *) "msg", 3, 1); crypto_core_ed25519_from_uniform(p, q); return (int64_t) h64(h64(H0, p, 32), q, 32); }
+static int64_t op_scalars(void) { unsigned char a[32], b[32], r[32], w[64]; memset(w, 0x77, 64); crypto_core_ed25519_scalar_reduce(a, w); memset(w, 0x31, 64); crypto_core_ed25519_scalar_reduce(b, w); crypto_core_ed25519_scalar_mul(r, a, b); crypto_core_ed25519_scalar_add(r, r, a); crypto_core_ed25519_scalar_invert(r, r); crypto_core_ed25519_scalar_negate(r, r); crypto_core_ed25519_scalar_complement(r, r); return (int64_t) h64(H0, r, 32); }
+static int64_t op_hkdf(void) { unsigned char prk[64], o[70]; crypto_kdf_hkdf_sha256_extract(prk, (const unsigned char *) "salt", 4, (const unsigned char *) "ikm", 3); crypto_kdf_hkdf_sha256_expand(o, 70, "info", 4, prk); crypto_kdf_hkdf_sha512_extract(prk, NULL, 0, o, 70); crypto_kdf_hkdf_sha512_expand(o, 70, NULL, 0, prk); return (int64_t) h64(H0, o, 70); }
+static int64_t op_kdf(void) { unsigned char k[32], o[40]; memset(k, 4, 32); crypto_kdf_derive_from_key(o, 40, 77, "context_", k); return (int64_t) h64(H0, o, 40); }
+static int64_t op_auth(void) { unsigned char k[32], o[64], m[70]; memset(k, 4, 32); memset(m, 6, 70); crypto_auth(o, m, 70, k); if (crypto_auth_verify(o, m, 70, k)) return -1; crypto_auth_hmacsha256(o, m, 70, k); crypto_auth_hmacsha512(o + 32, m, 70, k); return (int64_t) h64(H0, o, 64) + crypto_auth_hmacsha256_verify(o, m, 70, k); }
+static int64_t op_hash256(void) { unsigned char o[32]; crypto_hash_sha256_state st; crypto_hash_sha256_init(&st); crypto_hash_sha256_update(&st, (const unsigned char *) "abc", 3); crypto_hash_sha256_update(&st, (const unsigned char *) "def", 3); crypto_hash_sha256_final(&st, o); return (int64_t) h64(H0, o, 32); }
+static int64_t op_generichash_multi(void) { unsigned char o[64], k[32], m[300]; crypto_generichash_state st; memset(k, 4, 32); memset(m, 6, 300); crypto_generichash_init(&st, k, 32, 64); crypto_generichash_update(&st, m, 129); crypto_generichash_update(&st, m + 129, 171); crypto_generichash_final(&st, o, 64); return (int64_t) h64(H0, o, 64); }
+static int64_t op_onetimeauth_multi(void) { unsigned char o[16], k[32], m[100]; crypto_onetimeauth_state st; memset(k, 9, 32); memset(m, 7, 100); crypto_onetimeauth_init(&st, k); crypto_onetimeauth_update(&st, m, 33); crypto_onetimeauth_update(&st, m + 33, 67); crypto_onetimeauth_final(&st, o); return crypto_onetimeauth_verify(o, m, 100, k) + (int64_t) h64(H0, o, 16); }
+static int64_t op_siphashx(void) { unsigned char o[16], k[16]; memset(k, 1, 16); crypto_shorthash_siphashx24(o, (const unsigned char *) "abcdefghij", 10, k); return (int64_t) h64(H0, o, 16); }
+static int64_t op_streams(void) { unsigned char o[96], k[32], n[24]; memset(k, 9, 32); memset(n, 1, 24); crypto_stream_xsalsa20(o, 96, n, k); crypto_stream_xchacha20_xor(o, o, 96, n, k); crypto_stream_salsa2012_xor(o, o, 96, n, k); crypto_stream_salsa208_xor(o, o, 96, n, k); crypto_stream_chacha20_ietf_xor_ic(o, o, 96, n, 3, k); return (int64_t) h64(H0, o, 96); }
+static int64_t op_cores(void) { unsigned char o[64], k[32], in[16]; memset(k, 9, 32); memset(in, 1, 16); crypto_core_hchacha20(o, in, k, NULL); crypto_core_hsalsa20(o + 32, in, k, NULL); crypto_core_salsa20(o, in, k, NULL); return (int64_t) h64(H0, o, 64); }
+static int64_t op_secretstream_pull(void) { crypto_secretstream_xchacha20poly1305_state s, p; unsigned char h[24], k[32], c[40], o[8], tg; unsigned long long l; memset(k, 1, 32); crypto_secretstream_xchacha20poly1305_init_push(&s, h, k); crypto_secretstream_xchacha20poly1305_push(&s, c, NULL, (const unsigned char *) "abc", 3, NULL, 0, 2); crypto_secretstream_xchacha20poly1305_init_pull(&p, h, k); return crypto_secretstream_xchacha20poly1305_pull(&p, o, &l, &tg, c, 20, NULL, 0) * 100 + tg + (int64_t) h64(H0, o, 3); }
+static int64_t op_pwstr_verify(void) { return crypto_pwhash_str_verify("$argon2id$v=19$m=8,t=1,p=1$AQIDBAUGBwgJCgsMDQ4PEA$ujGdxyOb7ULOSjaQvFUmGgGSNhe4m3kVvWuqrK1mRWg", "pw", 2) * 10 + crypto_pwhash_str_needs_rehash("$argon2id$v=19$m=8,t=1,p=1$AQIDBAUGBwgJCgsMDQ4PEA$ujGdxyOb7ULOSjaQvFUmGgGSNhe4m3kVvWuqrK1mRWg", 1, 8192); }
+static int64_t op_pwstr(void) { char s[128]; if (crypto_pwhash_str(s, "pw", 2, 1, 8192)) return -1; return crypto_pwhash_str_verify(s, "pw", 2); }
+static int64_t op_scrypt_str(void) { return crypto_pwhash_scryptsalsa208sha256_str_needs_rehash("$7$C6..../....SodiumChloride$kBGj9fHznVYFQMEn/qDCfrDevf9YDtcDdKvEqHJLV8D", 32768, 16777216); }
+static int64_t op_codecs(void) { char t[100]; unsigned char b[40], o[40]; size_t bl; memset(b, 0xa7, 40); sodium_bin2hex(t, 100, b, 40); sodium_hex2bin(o, 40, t, 80, NULL, &bl, NULL); sodium_bin2base64(t, 100, o, 40, sodium_base64_VARIANT_URLSAFE); return sodium_base642bin(b, 40, t, strlen(t), NULL, &bl, NULL, sodium_base64_VARIANT_URLSAFE) + (int64_t) h64(H0, t, strlen(t)) + (int64_t) bl; }
+static int64_t op_pad(void) { unsigned char b[64]; size_t pl, ul; memset(b, 5, 64); sodium_pad(&pl, b, 21, 16, 64); sodium_unpad(&ul, b, pl, 16); return (int64_t) (pl * 100 + ul); }
+static int64_t op_utils(void) { unsigned char a[24], b[24]; memset(a, 0xff, 24); memset(b, 1, 24); sodium_increment(a, 24); sodium_add(a, b, 24); sodium_sub(a, b, 12); sodium_stackzero(128); return sodium_compare(a, b, 24) * 4 + sodium_memcmp(a, b, 24) * 2 + sodium_is_zero(a, 24) + (int64_t) h64(H0, a, 24); }
+static int64_t op_verify(void) { unsigned char a[64], b[64]; memset(a, 3, 64); memset(b, 3, 64); b[63] = 4; return crypto_verify_16(a, b) * 4 + crypto_verify_32(a, b) * 2 + crypto_verify_64(a, b); }
+static int64_t op_detrng(void) { unsigned char o[100], s[32]; memset(s, 2, 32); randombytes_buf_deterministic(o, 100, s); return (int64_t) h64(H0, o, 100); }
+static int64_t op_argon2i(void) { unsigned char o[16], s[16]; memset(s, 2, 16); if (crypto_pwhash(o, 16, "pw", 2, s, 3, 8192, crypto_pwhash_ALG_ARGON2I13)) return -1; return (int64_t) h64(H0, o, 16); }
+static int64_t op_allocarray(void) { unsigned char *p = sodium_allocarray(7, 9); int64_t r; if (!p) return -1; r = p[0] + p[62]; sodium_mlock(p, 63); sodium_munlock(p, 63); sodium_free(p); return r; }
 typedef int64_t (*op_fn)(void);
 static const struct { const char *name; op_fn fn; } OPS[] = {
     { "runtime_flags", op_flags }, { "randombytes_implementation_name", op_rngname }, { "sodium_malloc/free", op_malloc }, { "sodium_mprotect_*", op_mprotect },
@@ -48,6 +89,14 @@ static const struct { const char *name; op_fn fn; } OPS[] = {
     { "randombytes_buf", op_randombuf }, { "randombytes_uniform", op_uniform }, { "crypto_secretbox_easy", op_secretbox }, { "crypto_aead_chacha20poly1305_ietf", op_aead },
     { "crypto_aead_aes256gcm", op_gcm }, { "crypto_sign", op_sign }, { "crypto_hash_sha512", op_hash }, { "crypto_shorthash", op_shorthash },
     { "crypto_secretstream", op_secretstream }, { "crypto_box_keypair", op_keygen }, { "crypto_pwhash_scrypt_ll", op_scrypt }, { "sodium_set_misuse_handler", op_misuse_handler },
-    { "sodium_init(again)", op_init_again }, { "sodium_memzero", op_memzero } };
+    { "sodium_init(again)", op_init_again }, { "sodium_memzero", op_memzero },
+    { "aead_chacha20poly1305_ietf_decrypt", op_aead_dec }, { "aead_xchacha20poly1305_ietf(forged)", op_aead_x }, { "aead_chacha20poly1305(orig)", op_aead_orig }, { "aead_aegis128l_decrypt", op_aegis_dec },
+    { "aead_aes256gcm_decrypt", op_gcm_dec }, { "secretbox_open_easy", op_secretbox_open }, { "secretbox_xchacha20poly1305", op_secretbox_x }, { "box_easy/open_easy", op_box }, { "box_xchacha20", op_box_x },
+    { "box_seal/seal_open", op_seal }, { "crypto_kx", op_kx }, { "crypto_sign_open", op_sign_open }, { "crypto_sign_multipart", op_sign_multi }, { "ed25519_to_curve25519", op_sign_convert },
+    { "core_ed25519 add/sub/valid", op_ed_core }, { "scalarmult_ed25519", op_ed_mult }, { "ristretto255", op_ristretto }, { "hash-to-curve", op_h2c }, { "ed25519 scalars", op_scalars },
+    { "hkdf", op_hkdf }, { "kdf_derive", op_kdf }, { "auth hmac x3 + verify", op_auth }, { "sha256 multipart", op_hash256 }, { "generichash multipart", op_generichash_multi },
+    { "onetimeauth multipart + verify", op_onetimeauth_multi }, { "siphashx24", op_siphashx }, { "stream variants", op_streams }, { "core h*/salsa", op_cores }, { "secretstream pull", op_secretstream_pull },
+    { "pwhash_str_verify/needs_rehash", op_pwstr_verify }, { "pwhash_str", op_pwstr }, { "scrypt needs_rehash", op_scrypt_str }, { "hex/base64", op_codecs }, { "pad/unpad", op_pad },
+    { "increment/add/sub/compare", op_utils }, { "crypto_verify_n", op_verify }, { "randombytes_buf_deterministic", op_detrng }, { "pwhash argon2i", op_argon2i }, { "sodium_allocarray/mlock", op_allocarray } };
 #define NOPS ((int) (sizeof OPS / sizeof OPS[0]))
 #endif
